@@ -208,6 +208,52 @@ def check_stability(case, ctx):
     ctx.require(abs(gv - gref) <= 1e-8 * gref + 1e-300, "p_norm_grid_difference", lambda: "grid ||A1-A2||_%r=%r vs %r" % (p, gv, gref))
 
 
+@st.composite
+def s_integer(draw):
+    """integer-valued critical pairs / samples (the literal form the documentation and the repository's tests use), heights up to thousands"""
+    k = draw(st.integers(1, 3))
+    mag = draw(st.sampled_from([3, 40, 600, 5000, 70000]))
+    depths = []
+    for _ in range(k):
+        n = draw(st.integers(1, 5))
+        xs = sorted(draw(st.lists(st.integers(-mag, mag), min_size=n + 2, max_size=n + 2, unique=True)))
+        ys = [0] + [draw(st.integers(-mag, mag)) for _ in range(n)] + [0]
+        depths.append([[x, y] for x, y in zip(xs, ys)])
+    n = draw(st.integers(3, 9))
+    vals = [[0] + [draw(st.integers(-mag, mag)) for _ in range(n - 2)] + [0] for _ in range(k)]
+    return {"int_depths": depths, "int_vals": vals, "start": draw(st.integers(-50, 50)), "span": draw(st.integers(1, 4000)),
+            "p": draw(st.one_of(st.sampled_from([1, 2, 3, 4, 5, 6, 8, 10]), finite(1.0, 8.0))), "mag": mag}
+
+
+def check_integer(case, ctx):
+    """the same function given with integer-typed breakpoints / samples: |y|^(p+1) must not be evaluated in 64-bit integer arithmetic"""
+    p = case["p"]
+    depths = case["int_depths"]
+    ref = pl.p_norm(depths, p)
+    big = max(abs(q[1]) for d in depths for q in d) ** (p + 1) >= 2.0 ** 63
+    ctx.label(p_class(p), "mag:%d" % case["mag"], "height^(p+1)>=2^63" if big else None)
+    ctx.nontrivial(big)
+    ple = ctx.call(PersLandscapeExact, critical_pairs=copy.deepcopy(depths), hom_deg=0)
+    v = norm_of(ctx, ple, p)
+    ctx.require(abs(v - ref) <= 1e-8 * ref + 1e-300, "p_norm_integer_pairs",
+                lambda: "p_norm(%r)=%r, (sum of int |f|^p)^(1/p)=%r; integer critical pairs=%s" % (p, v, ref, depths))
+    s = ctx.call(ple.sup_norm)
+    ctx.require(is_real_number(s) and float(s) == pl.sup_norm(depths), "sup_norm", lambda: "sup_norm=%r, max |ordinate|=%r" % (s, pl.sup_norm(depths)))
+    vals = np.array(case["int_vals"], dtype=np.int64)
+    start, stop = case["start"], case["start"] + case["span"]
+    pla = ctx.call(PersLandscapeApprox, start=start, stop=stop, num_steps=vals.shape[1], values=vals, hom_deg=0)
+    grid = np.linspace(start, stop, vals.shape[1])
+    gdepths = [[[float(x), float(y)] for x, y in zip(grid, row)] for row in vals]
+    gref = pl.p_norm(gdepths, p)
+    gv = norm_of(ctx, pla, p)
+    ctx.require(abs(gv - gref) <= 1e-8 * gref + 1e-300, "p_norm_integer_samples",
+                lambda: "grid p_norm(%r)=%r, reference %r; int64 values=%s grid=(%r,%r)" % (p, gv, gref, vals.tolist(), start, stop))
+    # a multiple of an integer-valued landscape
+    c = 3
+    nc = norm_of(ctx, ctx.call(lambda: c * ple), p)
+    ctx.require(abs(nc - c * ref) <= 1e-8 * c * ref + 1e-300, "homogeneity_integer_pairs", lambda: "||3 A||=%r, 3 ||A||=%r (p=%r)" % (nc, c * ref, p))
+
+
 def VALID_DEFAULT(case):
     try:
         if not case["p"] >= 1:
@@ -217,6 +263,15 @@ def VALID_DEFAULT(case):
                 return False
         if "fam" in case and not valid_family(case["fam"], allow_diag=False, min_size=1):
             return False
+        if "int_depths" in case:
+            if not case["int_depths"] or not case["int_vals"] or len({len(r) for r in case["int_vals"]}) != 1 or len(case["int_vals"][0]) < 2 or not case["span"] >= 1:
+                return False
+            for d in case["int_depths"]:
+                xs = [q[0] for q in d]
+                if len(d) < 2 or any(not isinstance(v, int) for q in d for v in q) or any(a >= b for a, b in zip(xs, xs[1:])) or d[0][1] != 0 or d[-1][1] != 0:
+                    return False
+            if any(not isinstance(v, int) for r in case["int_vals"] for v in r) or len(case["int_vals"]) != len(case["int_depths"]):
+                return False
         if "vals" in case and (not case["vals"] or len({len(r) for r in case["vals"]}) != 1 or len(case["vals"][0]) < 2 or not case["span"] > 0):
             return False
     except Exception:
@@ -236,6 +291,9 @@ CLAUSES = [
     Clause("lazy_first_use", s_lazy(), check_lazy, quick=1500, thorough=20000,
            rule="PersLandscapeExact(dgms, compute=False) whose FIRST use is p_norm (or sup_norm): the value equals the integral of the eagerly "
                 "computed twin; non-trivial = >= 2 bars"),
+    Clause("integer_valued", s_integer(), check_integer, quick=3000, thorough=40000,
+           rule="integer-typed critical pairs (Python ints) and int64 sample arrays with heights up to 70000: p_norm vs the reference integral of the same "
+                "function, sup norm, homogeneity; non-trivial = max height^(p+1) >= 2^63 (beyond 64-bit integer arithmetic)"),
     Clause("stability", s_stab(), check_stability, quick=3000, thorough=40000,
            rule="sup|lambda(D1)-lambda(D2)| <= bottleneck (independent reference) for exact landscapes and, with + step slack, for grid landscapes on "
                 "a common covering grid; p-norm of those differences vs the reference integral; non-trivial = crossing segment and >= 2 bars each"),
